@@ -20,6 +20,8 @@ import props  # noqa: E402
 
 JOBS = int(os.environ.get("VERIF_JOBS", "16"))
 BUILD = os.environ.get("VERIF_BUILD", os.path.join(VERIF, "build"))
+# where replays and evidence are written (the sensitivity tool redirects them to a scratch dir)
+OUT = os.environ.get("VERIF_OUT", VERIF)
 REPLAY_TIMEOUT = 60
 
 SAN_ENV = {
@@ -431,6 +433,8 @@ def run(pid, P, t0, tmpdir):
             est["executed"] += stats["executed"]
             for k in ("executed", "nontrivial", "steps", "events", "enum_plans", "enum_runs"):
                 agg[k] += stats[k]
+            agg["interleavings_max_per_worker"] = max(agg.get("interleavings_max_per_worker", 0), stats.get("distinct_interleavings", 0))
+            agg["interleavings_sum_over_workers"] = agg.get("interleavings_sum_over_workers", 0) + stats.get("distinct_interleavings", 0)
             for k, v in stats["faults"].items():
                 d = agg["faults"].setdefault(k, {"sites": 0, "configured": 0, "fired": 0})
                 for kk in d:
@@ -460,6 +464,13 @@ def run(pid, P, t0, tmpdir):
         with open(cand, "w") as f:
             f.write(text)
         r1 = replay(exe, cand)
+        ms = re.search(r"^SCHED( .*)?$", r1[3], re.M)
+        if ms and not re.search(r"^sched", text, re.M):
+            # make the schedule explicit, so that it is part of the replay file and can be minimised
+            text = text + "sched" + (ms.group(1) or "") + "\n"
+            with open(cand, "w") as f:
+                f.write(text)
+            r1 = replay(exe, cand)
         r2 = replay(exe, cand)
         if r1[0] == "ok" or r1[0] != r2[0] or (r1[1] is not None and r1[1] != r2[1]):
             log("INFRA candidate run %d of %s (%s) does not reproduce identically in fresh processes: "
@@ -469,7 +480,8 @@ def run(pid, P, t0, tmpdir):
         cls = r1[0]
         if cls == "harness":
             log("INFRA the harness itself reported an internal inconsistency (run %d): %s" % (c["run"], r1[2]))
-            shutil.copy(cand, os.path.join(VERIF, "replays", "harness-bug.replay"))
+            os.makedirs(os.path.join(OUT, "replays"), exist_ok=True)
+            shutil.copy(cand, os.path.join(OUT, "replays", "harness-bug.replay"))
             return 2
         if cls in seen_classes:
             continue
@@ -477,8 +489,8 @@ def run(pid, P, t0, tmpdir):
         sh = Shrinker(exe, cls, tmpdir)
         small, nb, na = sh.shrink(text)
         small = "\n".join(l for l in small.splitlines() if not l.startswith("expect")) + "\n"
-        os.makedirs(os.path.join(VERIF, "replays"), exist_ok=True)
-        path = os.path.join(VERIF, "replays", "%s-%d-%d.replay" % (e["id"], seed, c["run"]))
+        os.makedirs(os.path.join(OUT, "replays"), exist_ok=True)
+        path = os.path.join(OUT, "replays", "%s-%d-%d.replay" % (e["id"], seed, c["run"]))
         with open(path, "w") as f:
             f.write(small + "expect class=%s\n" % cls)
         r3 = replay(exe, path)
@@ -535,6 +547,10 @@ def write_evidence(pid, P, tier, seed, agg, distinct, sample_mod, violations, wa
             "nontrivial_runs": agg["nontrivial"],
             "single_fault_enumeration": {"plans": agg["enum_plans"], "reruns": agg["enum_runs"]},
             "logical_steps": agg["steps"],
+            "distinct_interleavings": {"measure": "hash of the per-run sequence of (fiber, lock/unlock/atomic kind, object) events; "
+                                                  "distinct values counted per worker process",
+                                       "max_in_one_worker": agg.get("interleavings_max_per_worker", 0),
+                                       "sum_over_workers": agg.get("interleavings_sum_over_workers", 0)},
             "events_logged": agg["events"],
             "runs_per_hour": int(total_runs / search_wall * 3600),
             "simulated_time": "none: the code under test has no timers or deadlines; logical steps are reported instead",
@@ -551,8 +567,8 @@ def write_evidence(pid, P, tier, seed, agg, distinct, sample_mod, violations, wa
         "build_s": round(t_build, 2),
         "violations": len(violations),
     }
-    os.makedirs(os.path.join(VERIF, "evidence"), exist_ok=True)
-    p = os.path.join(VERIF, "evidence", pid + ".json")
+    os.makedirs(os.path.join(OUT, "evidence"), exist_ok=True)
+    p = os.path.join(OUT, "evidence", pid + ".json")
     with open(p + ".tmp", "w") as f:
         json.dump(ev, f, indent=1)
         f.write("\n")
